@@ -580,7 +580,8 @@ func finalizeOutboundListeners(lb *ListenerBuilder, listenerMap map[listenerKey]
 		l := buildListenerFromEntry(lb, le, fallthroughNetworkFilters)
 		listeners = append(listeners, l)
 	}
-	return listeners
+	// in the order of the listener names: the LDS response must not depend on map iteration order
+	return slices.SortBy(listeners, func(l *listener.Listener) string { return l.Name })
 }
 
 func buildListenerFromEntry(builder *ListenerBuilder, le *outboundListenerEntry, fallthroughNetworkFilters []*listener.Filter) *listener.Listener {
